@@ -106,7 +106,7 @@ def main():
         ],
         "checks": checks,
         "not_applicable": na,
-        "notes": "Thorough tier of every check except C07 first runs a quarter of the quick sample against the real rayon (OS threads; runtime observation, cross-check only, summary embedded in the evidence), then the deciding simulated run. All checks: exit 0 held / 1 violation (VIOLATION line + replay file under /verif/replays) / 2 harness error. VERIF_SEED shifts the whole sample (default 20261002). Known findings: /verif/known_findings.json.",
+        "notes": "Every run thread is fresh; what ran on a thread before the judged calls is therefore generated explicitly (failing and early-stopping searches, a battery of valid calls on a sibling graph, queries in the middle of the history, a rejected load into another graph, a failed read) and counter wrap-around is probed at 2^8 / 2^15 / 2^16 calls (DESIGN.md §0.2). Thorough tier of every check except C07 first runs a quarter of the quick sample against the real rayon (OS threads; runtime observation, cross-check only, summary embedded in the evidence), then the deciding simulated run. All checks: exit 0 held / 1 violation (VIOLATION line + replay file under /verif/replays) / 2 harness error. VERIF_SEED shifts the whole sample (default 20261002). Known findings: /verif/known_findings.json.",
     }
     json.dump(m, open("/verif/MANIFEST.json", "w"), indent=1)
     print("MANIFEST.json: %d claimed, %d not applicable" % (len(checks), len(na)))
